@@ -95,6 +95,49 @@ def linkerTables {K L α : Type} [DecidableEq K] (name : K) (linker : Store L α
   dictFromPairs (subs.map fun p => (p.1, modelTable p.2 status iterations includeInternal))
     [(name, modelTable linker status iterations includeInternal)]
 
+/-! ## Name-dependent access: variable name vs. storage key
+
+`Store.data` is the series BY NAME.  In the code the name is not where the series lives: `add_variable(name, v)` does
+`self.__dict__['_' + name] = v` and `obj[name]` reads `self.__dict__['_' + name]` after checking `name in index`
+(`__getitem__` -> `self.__getattr__(key)`, the class's own `__getattr__`, NOT Python's attribute lookup).  `Obj` makes
+that map explicit so that names which look like storage keys (`_Y` next to `Y`) or like members of the class
+(`size`, `copy`, `values` …) are inside the model: a name is an opaque string, the only place it is rewritten is
+`storageKey`. -/
+
+/-- `'_' + name`: the `__dict__` key under which the series of variable `name` is stored. -/
+def storageKey (name : String) : String := "_" ++ name
+
+/-- An instance as it is in memory: `dict` is the part of `__dict__` that holds series (storage key ↦ cells, in
+    insertion order); `index` / `names` as in `Store`. -/
+structure Obj (L α : Type) where
+  span : List L
+  index : List String
+  names : List String
+  dict : List (String × List α)
+
+/-- `obj[key]` for a str key (`VectorContainer.__getitem__`): `KeyError` (`none`) unless `key in index`, otherwise
+    `self.__getattr__(key)` = `self.__dict__['_' + key]`. -/
+def getItem {L α : Type} (o : Obj L α) (key : String) : Option (List α) :=
+  if key ∈ o.index then dictGet o.dict (storageKey key) else none
+
+/-- NOT what the code does — what `getattr(self, key)` would do (Python's normal lookup: the instance `__dict__`
+    under `key` ITSELF first, `__getattr__` only when that fails; class members left out).  Kept to state that the
+    two differ exactly on names that are the storage key of another variable. -/
+def attrLookup {L α : Type} (o : Obj L α) (key : String) : Option (List α) :=
+  match dictGet o.dict key with
+  | some v => some v
+  | none => getItem o key
+
+/-- The by-name view the exports read (`model[k]` for every `k` they ask for). -/
+def Obj.toStore {L α : Type} (o : Obj L α) : Store L α :=
+  { span := o.span, index := o.index, names := o.names, data := fun k => (getItem o k).getD [] }
+
+/-- The `__dict__` a constructor builds from by-name series: `add_variable` is called once per name in `index`
+    order, each doing `self.__dict__['_' + name] = series`. -/
+def Store.toObj {L α : Type} (m : Store L α) : Obj L α :=
+  { span := m.span, index := m.index, names := m.names,
+    dict := dictFromPairs (m.index.map fun k => (storageKey k, m.data k)) [] }
+
 /-! ## `from_dataframe` -/
 
 /-- The defaults `ModelInterface.__init__` fills in: `default_value` (before the cast), `'-'`, `-1`. -/
